@@ -41,6 +41,8 @@ REQUIRED = ['GOTO', 'GOSUB', 'THEN', 'ELSE', 'RESTORE', 'RUN', 'RESUME', 'ERL', 
 
 def check(ctx, rep):
     from . import c13, _share
+    from . import c38 as _c38
+    _share.share(ctx, rep, _c38, ('all-events.',), 'RENUM remaps every event trap it finds in BasicEvents.all: the list must hold every handler')
     from . import c22 as _c22
     _share.share(ctx, rep, _c22, ('scan.mode', 'scan.remark'), 'the scan for line-number references skips string literals and remarks only to the end of their line')
     _share.share(ctx, rep, c13, ('pairing.renum',), 'RENUM re-keys the line dictionary consistently with the rewritten program')
@@ -61,6 +63,15 @@ def check(ctx, rep):
     rep.ob('reference-kinds.token', "_tokenise_jump_number writes T_UINT + '<H' number", "tk.T_UINT + struct.pack('<H', linum)" in wr, repr(wr), ctx.where(jn))
     # renum scan
     rn = ctx.fn(PROGRAM + ':Program.renum')
+    # RENUM 0 is a request for line 0: an argument is defaulted only when it is None, never by truthiness
+    params = [a.arg for a in rn.args.args]
+    soft = [b for b in own_nodes(rn) if isinstance(b, ast.BoolOp) and isinstance(b.op, ast.Or) and isinstance(b.values[0], ast.Name) and b.values[0].id in params]
+    rep.ob('arguments.zero-is-not-omitted', 'Program.renum defaults its arguments with `is None` tests', not soft,
+           '%s: a new line number / start line / increment of 0 is replaced by the default' % [norm(b) for b in soft], ctx.where(rn))
+    dfl = dict((norm(a.targets[0]), norm(a.value)) for a in own_nodes(rn) if isinstance(a, ast.Assign) and isinstance(a.value, ast.IfExp))
+    rep.ob('arguments.zero-is-not-omitted', 'defaults: new line 10, start 0, increment 10',
+           dfl == {'new_line': '10 if new_line is None else new_line', 'start_line': '0 if start_line is None else start_line', 'step': '10 if step is None else step'},
+           repr(dfl), ctx.where(rn))
     loops = [n for n in own_nodes(rn) if isinstance(n, ast.While)]
     ok = len(loops) == 1 and norm(loops[0].test) == 'ins.skip_to_read((tk.T_UINT,)) == tk.T_UINT'
     rep.ob('scan.all-tokens', 'renum loops over every T_UINT token', ok, norm(loops[0].test) if loops else 'none', ctx.where(rn))
@@ -176,6 +187,8 @@ def variants(ctx):
         return lambda tree: f(mu.find_def(tree, path_fn))
 
     return [
+        Va('renum-defaults-by-truthiness', 'break', PROGRAM,
+           in_fn('Program.renum', lambda fn: mu.replace_expr(fn, mu.text_is('10 if new_line is None else new_line'), 'new_line or 10')), expect='arguments.zero-is-not-omitted'),
         Va('restore-not-a-linenum-word', 'break', TOK,
            lambda tree: mu.replace_expr(mu.find_def(tree, 'Tokeniser'), mu.text_is('tk.KW_RESTORE'), 'tk.KW_REM'), expect='reference-kinds'),
         Va('scan-stops-at-first-missing', 'break', PROGRAM,
